@@ -4,7 +4,12 @@
 // -tags verif; adds accessors, changes no behaviour.
 package encoding
 
-import cbor "github.com/fxamacker/cbor/v2"
+import (
+	"bytes"
+	"encoding/json"
+
+	cbor "github.com/fxamacker/cbor/v2"
+)
 
 // VerifOrderedMapCBOR gives the harness direct access to the ordered field map.
 type VerifOrderedMapCBOR struct{ m *structFieldsCBOR }
@@ -40,3 +45,28 @@ func (o *VerifOrderedMapJSON) Keys() []string                   { return append(
 func (o *VerifOrderedMapJSON) NumFields() int                   { return len(o.m.Fields) }
 func (o *VerifOrderedMapJSON) ToJSON() ([]byte, error)          { return o.m.ToJSON() }
 func (o *VerifOrderedMapJSON) FromJSON(data []byte) error       { return o.m.FromJSON(data) }
+
+// VerifUnmarshalKeys runs the key-order pass of FromJSON alone (no json.Unmarshal before it).
+func VerifUnmarshalKeys(data []byte) ([]string, error) {
+	o := newStructFieldsJSON()
+	err := o.unmarshalKeys(data)
+	return append([]string(nil), o.Keys...), err
+}
+
+// VerifSkipValue runs skipValue once on a fresh decoder over data. It reports whether the
+// end-of-array-or-object sentinel came back, any other error, and how many tokens the decoder
+// still yields afterwards.
+func VerifSkipValue(data []byte) (remaining int, endOfStream bool, err error) {
+	dec := json.NewDecoder(bytes.NewReader(data))
+	err = skipValue(dec)
+	if err == errEndOfStream {
+		endOfStream, err = true, nil
+	}
+	for {
+		if _, e := dec.Token(); e != nil {
+			break
+		}
+		remaining++
+	}
+	return remaining, endOfStream, err
+}
